@@ -453,7 +453,17 @@ func (s *Server) attachClient(cl *Client, listener string) error {
 	}
 
 	verifPoint("attach.afterLimitCheck", cl)
-	atomic.AddInt64(&s.Info.ClientsConnected, 1)
+	if atomic.AddInt64(&s.Info.ClientsConnected, 1) > s.Options.Capabilities.MaximumClients {
+		// other connections passed the check above at the same time and took the remaining slots
+		atomic.AddInt64(&s.Info.ClientsConnected, -1)
+		if cl.Properties.ProtocolVersion < 5 {
+			s.SendConnack(cl, packets.ErrServerUnavailable, false, nil)
+		} else {
+			s.SendConnack(cl, packets.ErrServerBusy, false, nil)
+		}
+
+		return packets.ErrServerBusy
+	}
 	defer atomic.AddInt64(&s.Info.ClientsConnected, -1)
 
 	s.hooks.OnSessionEstablish(cl, pk)
